@@ -84,7 +84,7 @@ Theorem C16_request_while_rewriting_is_dropped :
   forall g : guard,
   (g_rewriting g = true -> gstep true g GRequest = g /\ gmark_of true g GRequest = []) /\
   (g_rewriting g = false -> gstep true g GRequest = mkguard true false (S (g_active g)) /\ gmark_of true g GRequest = [GStarted]).
-Proof. exact (fun g => conj (guard_request_while_rewriting g) (guard_request_when_not_rewriting g)). Qed.
+Proof. exact guard_request_spec. Qed.
 Goal True. idtac "ASSUMPTIONS-OF C16_request_while_rewriting_is_dropped". Abort.
 Print Assumptions C16_request_while_rewriting_is_dropped.
 Example C16_request_while_rewriting_is_dropped_nonvacuous :
@@ -110,24 +110,21 @@ Proof. exact guard_on_other_flag_overlaps. Qed.
 Goal True. idtac "ASSUMPTIONS-OF C16_guard_on_other_flag_overlaps". Abort.
 Print Assumptions C16_guard_on_other_flag_overlaps.
 
-(* (d) Appends during the rewrite go to a file that is not among the inputs: findRewriteAofFiles never returns the
+(* ([fresh]: source switch of loadRewriteAofFiles, false = today: a left-over rewrite.aof.tmp is appended to; the theorems
+   of (d) hold for both variants, the refutations above are about directories without a left-over tmp file, where the two
+   variants coincide: compact_steps_no_stale_tmp.)
+   (d) Appends during the rewrite go to a file that is not among the inputs: findRewriteAofFiles never returns the
    current append file or a later one (nor their value files), and every mutation of the compaction goroutine stays
    inside its footprint (tmp pair, rewrite pair, append files with a smaller index). *)
 Theorem C16_appends_avoid_the_compaction_inputs :
-  forall (has_lock : bytes -> option bytes -> bool) (fx : fixes) (bs : nat) (d : dir) (cur : N) (now : Z),
+  forall (has_lock : bytes -> option bytes -> bool) (fx : fixes) (bs : nat) (fresh : bool) (d : dir) (cur : N) (now : Z),
   (forall l i, rewrite_inputs d cur = Some l -> cur <= i -> ~ In (FAppend i) l /\ ~ In (FAppendDat i) (map dat_of l)) /\
-  Forall (local_mut cur) (compact_steps has_lock fx bs false d cur now) /\
-  (forall k f, local_file cur f = false -> dget (crash_after has_lock fx bs false d cur now k) f = dget d f) /\
-  compact_steps has_lock fx bs true d cur now =
+  Forall (local_mut cur) (compact_steps_v has_lock fx bs fresh false d cur now) /\
+  (forall k f, local_file cur f = false -> dget (crash_after_v has_lock fx bs fresh false d cur now k) f = dget d f) /\
+  compact_steps_v has_lock fx bs fresh true d cur now =
     [MPut (FAppend (cur + 1)) header; MPut (FAppendDat (cur + 1)) []] ++
-    compact_steps has_lock fx bs false (run_steps d [MPut (FAppend (cur + 1)) header; MPut (FAppendDat (cur + 1)) []]) (cur + 1) now.
-Proof.
-  exact (fun has_lock fx bs d cur now =>
-    conj (fun l i => rewrite_inputs_exclude_current d cur l i)
-   (conj (compact_steps_local has_lock fx bs d cur now)
-   (conj (fun k f => compaction_frame has_lock fx bs d cur now k f)
-         (compact_steps_rotate has_lock fx bs d cur now)))).
-Qed.
+    compact_steps_v has_lock fx bs fresh false (run_steps d [MPut (FAppend (cur + 1)) header; MPut (FAppendDat (cur + 1)) []]) (cur + 1) now.
+Proof. exact appends_avoid_inputs. Qed.
 Goal True. idtac "ASSUMPTIONS-OF C16_appends_avoid_the_compaction_inputs". Abort.
 Print Assumptions C16_appends_avoid_the_compaction_inputs.
 Example C16_appends_avoid_the_compaction_inputs_nonvacuous :
@@ -141,16 +138,16 @@ Proof. split; vm_compute; reflexivity. Qed.
    compaction), and EVERY crash image of the busy run is a crash image of the quiescent compaction with a prefix of the
    appends on top; a restart recovers the same from both. *)
 Theorem C16_busy_compaction_is_quiescent_compaction_plus_appends :
-  forall (has_lock : bytes -> option bytes -> bool) (fx : fixes) (bs rbs : nat) (d : dir) (cur : N) (now : Z)
+  forall (has_lock : bytes -> option bytes -> bool) (fx : fixes) (bs : nat) (fresh : bool) (rbs : nat) (d : dir) (cur : N) (now : Z)
          (fs ms : list mutation),
-  let cs := compact_steps has_lock fx bs false d cur now in
+  let cs := compact_steps_v has_lock fx bs fresh false d cur now in
   Forall (fun f => foreign_mut cur f = true) fs -> merge cs fs ms ->
-  dir_equiv (run_steps d ms) (run_steps (compact has_lock fx bs false d cur now) fs) /\
+  dir_equiv (run_steps d ms) (run_steps (compact_v has_lock fx bs fresh false d cur now) fs) /\
   dir_equiv (run_steps d ms) (run_steps (run_steps d fs) cs) /\
   forall n, exists k j,
-    dir_equiv (run_steps d (firstn n ms)) (run_steps (crash_after has_lock fx bs false d cur now k) (firstn j fs)) /\
+    dir_equiv (run_steps d (firstn n ms)) (run_steps (crash_after_v has_lock fx bs fresh false d cur now k) (firstn j fs)) /\
     forall rnow, recover fx rbs (run_steps d (firstn n ms)) rnow
-                 = recover fx rbs (run_steps (crash_after has_lock fx bs false d cur now k) (firstn j fs)) rnow.
+                 = recover fx rbs (run_steps (crash_after_v has_lock fx bs fresh false d cur now k) (firstn j fs)) rnow.
 Proof. exact busy_compaction. Qed.
 Goal True. idtac "ASSUMPTIONS-OF C16_busy_compaction_is_quiescent_compaction_plus_appends". Abort.
 Print Assumptions C16_busy_compaction_is_quiescent_compaction_plus_appends.
